@@ -206,7 +206,11 @@ class CrossProductComp(ExplicitComponent):
             b = inputs[product['b_name']]
 
             # Use the following for sparse partials
-            partials[product['c_name'], product['a_name']] = \
-                np.einsum('...j,ji->...i', b, self._minus_k).ravel()
-            partials[product['c_name'], product['b_name']] = \
-                np.einsum('...j,ji->...i', a, self._k).ravel()
+            da = np.einsum('...j,ji->...i', b, self._minus_k).ravel()
+            db = np.einsum('...j,ji->...i', a, self._k).ravel()
+            if product['a_name'] == product['b_name']:
+                # a x a: both contributions fall on the same sub-jacobian (and cancel)
+                partials[product['c_name'], product['a_name']] = da + db
+            else:
+                partials[product['c_name'], product['a_name']] = da
+                partials[product['c_name'], product['b_name']] = db
